@@ -212,6 +212,15 @@ def gen_pattern(rng):
         d = rng.choice([{}, {"pathname": "*"}, {"protocol": "*", "hostname": "*", "pathname": "*"}, {"pathname": "(.*)"},
                         {"search": "*", "hash": "*"}, {"hostname": "*", "port": "*"}])
         return "i", enc_init(d), "!", ic, d
+    if rng.random() < 0.06:
+        # pure literals without ASCII letters whose canonical form has percent-escapes (hex digits A-F are letters there):
+        # under ignoreCase they must match whatever the case of the escapes in the input
+        comp = rng.choice(["pathname", "pathname", "search", "hash"])
+        lit = {"pathname": ["/é", "/2024/€", "/ü/1", "/→", "/1 2", "/<>"], "search": ["ü=1", "é", "1=→", "€"], "hash": ["→", "é1", "€", "1 2"]}[comp]
+        d = {comp: rng.choice(lit)}
+        if rng.random() < 0.3:
+            d["hostname"] = "example.com"
+        return "i", enc_init(d), "!", ("1" if rng.random() < 0.75 else "0"), d
     if rng.random() < 0.1:
         # a literal (or grouped) scheme decides how the pathname is compiled: hierarchical for special schemes (file included),
         # opaque otherwise; the pathname has groups / dot segments so that the two compilations behave differently
@@ -248,6 +257,18 @@ def gen_input(rng):
         if k == 2:
             return "i", enc_init(rng.choice([{"port": "99999"}, {"baseURL": "not a base"}, {"protocol": "a b"}, {"hostname": "a b"}])), "!"
         return "i", enc_init(rng.choice([{"pathname": "/foo"}, {}])), hx(b"https://example.com/")
+    if rng.random() < 0.08:
+        # the same non-ASCII text spelled raw and as escapes with upper-, lower- and mixed-case hex digits
+        def spell(t):
+            k = rng.randrange(4)
+            if k == 0:
+                return t
+            e = "".join("%%%02X" % b for b in t.encode())
+            return e if k == 1 else e.lower() if k == 2 else "".join(c.lower() if rng.random() < 0.5 else c for c in e)
+        path = rng.choice(["/" + spell("é"), "/2024/" + spell("€"), "/" + spell("ü") + "/1", "/" + spell("→"), "/1%20" + "2", "/%3c%3e", "/%3C%3E"])
+        q = rng.choice(["", "", "?" + spell("ü") + "=1", "?" + spell("é"), "?1=" + spell("→"), "?" + spell("€")])
+        f = rng.choice(["", "", "#" + spell("→"), "#" + spell("é") + "1", "#" + spell("€"), "#1%202"])
+        return "s", hx(("https://example.com" + path + q + f).encode()), "!"
     if rng.random() < 0.12:
         # hierarchical paths of several segments under every kind of scheme
         u = rng.choice(["file://", "file://h", "http://h", "ftp://h", "wss://h", "foo://h", "foo:"]) + \
